@@ -91,6 +91,7 @@ def main():
         if plan["config"]["results_name"] is None:
             plan["config"]["results_name"] = "res"
         plan["property"] = "C05"
+        plan["config"]["progress"] = None      # the banner of the text styles goes to the real stdout when run outside the world
         for inc in plan["incarnations"]:
             inc["fault"] = None
         sim, e1 = run_sim(plan)
